@@ -24,6 +24,10 @@ var (
 	// Use errors.Is to check if returned error is ErrUnsupportedVersion.
 	ErrUnsupportedVersion = errors.New("unsupported version")
 
+	// ErrInvalidDate is wrapped and returned by Date.UnmarshalBinary if passed input is not existing date.
+	// Use errors.Is to check if returned error is ErrInvalidDate.
+	ErrInvalidDate = errors.New("invalid date")
+
 	// ErrInvalidType is wrapped and returned by Date.Scan if passed type is invalid.
 	// Use errors.Is to check if returned error is ErrInvalidType.
 	ErrInvalidType = errors.New("invalid type")
